@@ -1,6 +1,8 @@
 import Pyunicorn.Lemmas.Geo
 import Pyunicorn.Lemmas.GeoError
 import Pyunicorn.Lemmas.GeoRound
+import Pyunicorn.Lemmas.GeoRoundAng
+import Pyunicorn.Lemmas.GeoHist
 import Pyunicorn.Generated.StructC12
 /-!
 # C12 — Grid distances equal closed-form geometry and are metrics
@@ -13,10 +15,14 @@ Statements about the model `Pyunicorn.Geo` (`Model/Geo.lean`) of
 
 The model is polymorphic in the number type.  Theorems marked *structural* hold
 for **every** number type (hence also for the float32 arithmetic the compiled
-kernel uses); the geometric theorems are stated over `ℝ`.  What is **not**
-proved: the float32 rounding-error bounds of the property statement
-(2⁻¹⁰ rad absolute, ≈2⁻²⁰ relative) — `Float` is opaque to the kernel; that
-part is sampled by `harness/c12.py` (partial).
+kernel uses); the geometric theorems are stated over `ℝ`.  The float32 accuracy
+clauses are theorems under the standard model of floating point arithmetic
+(`StdRound`): Euclidean relative error `2⁻²⁰` (round 2), angular absolute error
+`arccos (1 - η) + 2 ε` with `η ≈ 5u + 5.66 δ` from the unit roundoff `u`, the table
+error `δ` and the radian-conversion error `ε` (round 3: `angular_entry_error_rounded`;
+`3·2⁻¹¹` for the tables numpy produces, `2⁻¹⁰` for correctly rounded tables).  `δ`, `ε`
+are measured by `harness/c12.py` on every run, and the property's `2⁻¹⁰` / relative
+`2⁻¹⁷` bounds are sampled (partial).
 
 The model is tied to the source by `harness/c12.py`: exact correspondence over
 `Rat` at the kernel boundary (dyadic inputs), exact correspondence for lookups
@@ -814,6 +820,228 @@ example : |Real.arccos (clamp (1 + 2⁻¹ ^ 22 : ℝ)) - 0| < 2⁻¹ ^ 10 := by
   rw [sub_zero, abs_of_nonneg h.1]
   linarith [h.2]
 
+/-! ## round 3: the bound `η` itself, under the standard model of floating point arithmetic
+
+`rCosAngKernel rnd` (Lemmas/GeoRoundAng) is the *same* model `cosAngKernel`, instantiated with
+operations that round their exact result.  What the kernel is handed are float32 tables:
+`sin` / `cos` evaluated in single precision at the single-precision radians
+`φ' i ≈ lat i · π / 180`, `l' i ≈ lon i · π / 180`.  The three elementary error sources are
+
+* `u`  — unit roundoff of the kernel's `+`, `*` (standard model; trusted for the hardware),
+* `δ`  — absolute error of a table entry against `sin` / `cos` of the radian value it was
+         computed from (measured on every run: `table_error_observed`, ≈ 1.2 · 2⁻²⁴),
+* `εφ`, `εl` — error of the degree → radian conversion (measured: ≤ 2⁻¹⁸·⁶ for |lon| ≤ 720°).
+
+The conversion error moves the *points* (and hence every distance by at most `2 (εφ + εl)`,
+by the triangle inequality on the sphere) — it does not pass through the square-root
+singularity of `arccos`; only `u` and `δ` do, through
+`η = ((1+u)⁵ - 1)(1+3δ)² + 5.66 δ + 11 δ²`. -/
+
+theorem arccos_cos_le_abs (x : ℝ) : Real.arccos (Real.cos x) ≤ |x| := by
+  by_cases h : |x| ≤ Real.pi
+  · rw [← Real.cos_abs x, Real.arccos_cos (abs_nonneg x) h]
+  · exact le_trans (Real.arccos_le_pi _) (le_of_lt (not_le.1 h))
+
+theorem angle_unitVec (φ l ψ m : ℝ) :
+    angle (unitVec φ l) (unitVec ψ m) = Real.arccos (inner ℝ (unitVec φ l) (unitVec ψ m)) := by
+  simp [angle, norm_unitVec]
+
+/-- moving a point of the sphere by `Δφ` in latitude and `Δl` in longitude moves it by an
+angle of at most `|Δφ| + |Δl|` -/
+theorem angle_unitVec_le (φ l φ' l' : ℝ) :
+    angle (unitVec φ l) (unitVec φ' l') ≤ |φ - φ'| + |l - l'| := by
+  have h1 : angle (unitVec φ l) (unitVec φ' l) ≤ |φ - φ'| := by
+    rw [angle_unitVec, inner_unitVec]
+    have e : Real.sin l * Real.sin l + Real.cos l * Real.cos l = 1 := by
+      nlinarith [Real.sin_sq_add_cos_sq l]
+    have : Real.sin φ * Real.sin φ' + Real.cos φ * Real.cos φ' *
+        (Real.sin l * Real.sin l + Real.cos l * Real.cos l) = Real.cos (φ - φ') := by
+      rw [e, Real.cos_sub]; ring
+    rw [this]; exact arccos_cos_le_abs _
+  have h2 : angle (unitVec φ' l) (unitVec φ' l') ≤ |l - l'| := by
+    rw [angle_unitVec, inner_unitVec]
+    refine le_trans (Real.antitone_arccos ?_) (arccos_cos_le_abs (l - l'))
+    have hc : Real.cos (l - l') ≤ 1 := Real.cos_le_one _
+    rw [Real.cos_sub] at hc ⊢
+    nlinarith [Real.sin_sq_add_cos_sq φ', sq_nonneg (Real.sin φ')]
+  exact le_trans (angle_le_angle_add_angle _ _ _) (add_le_add h1 h2)
+
+/-- angles between two pairs of points differ by at most the displacements of the points -/
+theorem angle_perturb {E : Type*} [NormedAddCommGroup E] [InnerProductSpace ℝ E] (v w v' w' : E) :
+    |angle v' w' - angle v w| ≤ angle v v' + angle w w' := by
+  have h1 := angle_le_angle_add_angle v' v w'
+  have h2 := angle_le_angle_add_angle v w w'
+  have h3 := angle_le_angle_add_angle v v' w
+  have h4 := angle_le_angle_add_angle v' w' w
+  rw [angle_comm v' v] at h1
+  rw [angle_comm w' w] at h4
+  rw [abs_le]
+  constructor <;> linarith
+
+/-- `arccos (1 - η) ≤ t` for `η ≤ t²/2 - 5t⁴/96`, `0 ≤ t ≤ 1` (Taylor bound of the cosine) -/
+theorem arccos_one_sub_le_of_sq (η t : ℝ) (ht0 : 0 ≤ t) (ht1 : t ≤ 1)
+    (h : η ≤ t ^ 2 / 2 - t ^ 4 * (5 / 96)) : Real.arccos (1 - η) ≤ t := by
+  have hb := (abs_le.1 (Real.cos_bound (abs_le.2 ⟨by linarith, ht1⟩))).2
+  rw [abs_of_nonneg ht0] at hb
+  exact arccos_one_sub_le η t ht0 (by linarith [Real.two_le_pi]) (by linarith)
+
+/-- the cosine the rounded kernel stores for the pair `(i, j)` is within
+`η = ((1+u)⁵ - 1)(1+3δ)² + 5.66 δ + 11 δ²` of the inner product of the points the tables
+were computed from -/
+theorem rCosExpr_total_error {rnd : ℝ → ℝ} {u : ℝ} (h : StdRound rnd u)
+    (φ' l' sl cl sn cn : Nat → ℝ) (δ : ℝ) (hδ : δ ≤ 1 / 16)
+    (hsl : ∀ i, |sl i - Real.sin (φ' i)| ≤ δ) (hcl : ∀ i, |cl i - Real.cos (φ' i)| ≤ δ)
+    (hsn : ∀ i, |sn i - Real.sin (l' i)| ≤ δ) (hcn : ∀ i, |cn i - Real.cos (l' i)| ≤ δ)
+    (i j : Nat) :
+    |rCosExpr rnd sl cl sn cn i j - inner ℝ (unitVec (φ' i) (l' i)) (unitVec (φ' j) (l' j))|
+      ≤ ((1 + u) ^ 5 - 1) * (1 + 3 * δ) ^ 2 + (566 / 100 * δ + 11 * δ ^ 2) := by
+  have hδ0 : 0 ≤ δ := le_trans (abs_nonneg _) (hsl 0)
+  have hA := rCosExpr_error h (by linarith : (0 : ℝ) ≤ 3 * δ) sl cl sn cn
+    (fun i => table_norm_le (φ' i) (sl i) (cl i) δ hδ (hsl i) (hcl i))
+    (fun i => table_norm_le (l' i) (sn i) (cn i) δ hδ (hsn i) (hcn i)) i j
+  have hB := cosExpr_table_error φ' l' sl cl sn cn δ hδ hsl hcl hsn hcn i j
+  have e : inner ℝ (unitVec (φ' i) (l' i)) (unitVec (φ' j) (l' j))
+      = cosExpr (fun i => Real.sin (φ' i)) (fun i => Real.cos (φ' i))
+          (fun i => Real.sin (l' i)) (fun i => Real.cos (l' i)) i j := by
+    rw [inner_unitVec]; rfl
+  rw [e]
+  have := abs_sub_le (rCosExpr rnd sl cl sn cn i j) (cosExpr sl cl sn cn i j)
+    (cosExpr (fun i => Real.sin (φ' i)) (fun i => Real.cos (φ' i))
+      (fun i => Real.sin (l' i)) (fun i => Real.cos (l' i)) i j)
+  linarith
+
+/-- **the accuracy clause for the rounded kernel, every pair** (incl. coincident, antipodal,
+the diagonal): with every `+`, `*` of the kernel rounded (`u`), table entries within `δ` of
+`sin` / `cos` of radian values `φ' i`, `l' i` that are within `εφ`, `εl` of the exact
+radians of the stored coordinates, the returned angle is within
+`arccos (1 - η) + 2 (εφ + εl)` of the great-circle distance. -/
+theorem angular_entry_error_rounded {rnd : ℝ → ℝ} {u : ℝ} (h : StdRound rnd u)
+    (lat lon φ' l' sl cl sn cn : Nat → ℝ) (δ εφ εl : ℝ) (hδ : δ ≤ 1 / 16)
+    (hsl : ∀ i, |sl i - Real.sin (φ' i)| ≤ δ) (hcl : ∀ i, |cl i - Real.cos (φ' i)| ≤ δ)
+    (hsn : ∀ i, |sn i - Real.sin (l' i)| ≤ δ) (hcn : ∀ i, |cn i - Real.cos (l' i)| ≤ δ)
+    (hφ : ∀ i, |φ' i - lat i * Real.pi / 180| ≤ εφ) (hl : ∀ i, |l' i - lon i * Real.pi / 180| ≤ εl)
+    (N a b : Nat) (ha : a < N) (hb : b < N) :
+    |Real.arccos (rCosAngKernel rnd sl cl sn cn N a b) - angularDistance realTrig lat lon N a b|
+      ≤ Real.arccos (1 - (((1 + u) ^ 5 - 1) * (1 + 3 * δ) ^ 2 + (566 / 100 * δ + 11 * δ ^ 2)))
+        + 2 * (εφ + εl) := by
+  -- the statement for an ordered pair of indices
+  have key : ∀ i j, |Real.arccos (clamp (rCosExpr rnd sl cl sn cn i j))
+        - angle (nodeVec lat lon i) (nodeVec lat lon j)|
+      ≤ Real.arccos (1 - (((1 + u) ^ 5 - 1) * (1 + 3 * δ) ^ 2 + (566 / 100 * δ + 11 * δ ^ 2)))
+        + 2 * (εφ + εl) := by
+    intro i j
+    have hc := rCosExpr_total_error h φ' l' sl cl sn cn δ hδ hsl hcl hsn hcn i j
+    set c'' := inner ℝ (unitVec (φ' i) (l' i)) (unitVec (φ' j) (l' j)) with hc''
+    have hm : -1 ≤ c'' ∧ c'' ≤ 1 := by
+      have := abs_real_inner_le_norm (unitVec (φ' i) (l' i)) (unitVec (φ' j) (l' j))
+      simp only [norm_unitVec, mul_one] at this
+      exact abs_le.1 this
+    have hcl' := clamp_mem (rCosExpr rnd sl cl sn cn i j)
+    have h1 := arccos_sub_le _ _ _ hcl'.1 hcl'.2 hm.1 hm.2
+      (le_trans (clamp_close _ c'' hm.1 hm.2) hc)
+    rw [hc'', ← angle_unitVec] at h1
+    have h2 := angle_perturb (nodeVec lat lon i) (nodeVec lat lon j)
+      (unitVec (φ' i) (l' i)) (unitVec (φ' j) (l' j))
+    have h3 : ∀ k, angle (nodeVec lat lon k) (unitVec (φ' k) (l' k)) ≤ εφ + εl := by
+      intro k
+      refine le_trans (angle_unitVec_le _ _ _ _) ?_
+      have := hφ k; have := hl k
+      rw [abs_sub_comm] at *
+      linarith [hφ k, hl k, abs_sub_comm (φ' k) (lat k * Real.pi / 180),
+        abs_sub_comm (l' k) (lon k * Real.pi / 180)]
+    have := abs_sub_le (Real.arccos (clamp (rCosExpr rnd sl cl sn cn i j)))
+      (angle (unitVec (φ' i) (l' i)) (unitVec (φ' j) (l' j)))
+      (angle (nodeVec lat lon i) (nodeVec lat lon j))
+    linarith [h3 i, h3 j]
+  rw [rCosAngKernel_apply rnd sl cl sn cn N a b ha hb, angularDistance_eq_angle lat lon N a b ha hb]
+  rcases Nat.le_total a b with hab | hab
+  · rw [Nat.max_eq_right hab, Nat.min_eq_left hab, angle_comm]; exact key b a
+  · rw [Nat.max_eq_left hab, Nat.min_eq_right hab]; exact key a b
+
+/-- **float32, tables within 1.5 units in the last place of 1** (`u = 2⁻²⁴`, `δ ≤ 3·2⁻²⁵` —
+numpy documents < 1.5 ulp for its single-precision `sin` / `cos`; the harness measures
+≈ 1.2·2⁻²⁴ on every run — and radian conversion within `2⁻¹⁷`, which covers
+longitudes up to ±1440°): every entry of the distance
+matrix is within `3·2⁻¹¹ = 1.5·2⁻¹⁰` rad of the great-circle distance.  This is what a
+worst-case analysis can give for such tables (`η ≈ 13.5 u`, `√(2η) ≈ 1.3·2⁻¹⁰`); the
+property's `2⁻¹⁰` needs `δ ≤ 2⁻²⁵` (next theorem) and is otherwise what the run measures. -/
+theorem angular_entry_accuracy_float32 {rnd : ℝ → ℝ} (h : StdRound rnd (2⁻¹ ^ 24))
+    (lat lon φ' l' sl cl sn cn : Nat → ℝ) (δ εφ εl : ℝ) (hδ : δ ≤ 3 * 2⁻¹ ^ 25)
+    (hε : εφ + εl ≤ 2⁻¹ ^ 17)
+    (hsl : ∀ i, |sl i - Real.sin (φ' i)| ≤ δ) (hcl : ∀ i, |cl i - Real.cos (φ' i)| ≤ δ)
+    (hsn : ∀ i, |sn i - Real.sin (l' i)| ≤ δ) (hcn : ∀ i, |cn i - Real.cos (l' i)| ≤ δ)
+    (hφ : ∀ i, |φ' i - lat i * Real.pi / 180| ≤ εφ) (hl : ∀ i, |l' i - lon i * Real.pi / 180| ≤ εl)
+    (N a b : Nat) (ha : a < N) (hb : b < N) :
+    |Real.arccos (rCosAngKernel rnd sl cl sn cn N a b) - angularDistance realTrig lat lon N a b|
+      < 3 * 2⁻¹ ^ 11 := by
+  have hδ0 : 0 ≤ δ := le_trans (abs_nonneg _) (hsl 0)
+  have hmain := angular_entry_error_rounded h lat lon φ' l' sl cl sn cn δ εφ εl
+    (le_trans hδ (by norm_num)) hsl hcl hsn hcn hφ hl N a b ha hb
+  have hη : ((1 + (2⁻¹ : ℝ) ^ 24) ^ 5 - 1) * (1 + 3 * δ) ^ 2 + (566 / 100 * δ + 11 * δ ^ 2)
+      ≤ ((1 + (2⁻¹ : ℝ) ^ 24) ^ 5 - 1) * (1 + 3 * (3 * 2⁻¹ ^ 25)) ^ 2
+        + (566 / 100 * (3 * 2⁻¹ ^ 25) + 11 * (3 * 2⁻¹ ^ 25) ^ 2) := by
+    have : (0 : ℝ) ≤ (1 + 2⁻¹ ^ 24) ^ 5 - 1 := by norm_num
+    gcongr
+  have ht := arccos_one_sub_le_of_sq _ (3 * 2⁻¹ ^ 11 - 2⁻¹ ^ 15) (by norm_num) (by norm_num)
+    (le_trans hη (by norm_num))
+  linarith
+
+/-- **float32 with correctly rounded tables** (`δ ≤ 2⁻²⁵`; conversion within `2⁻¹⁹`: |lon| ≤ 360°): the property's bound — every
+entry within `2⁻¹⁰` rad of the great-circle distance, anywhere on the sphere. -/
+theorem angular_entry_accuracy_float32_cr {rnd : ℝ → ℝ} (h : StdRound rnd (2⁻¹ ^ 24))
+    (lat lon φ' l' sl cl sn cn : Nat → ℝ) (δ εφ εl : ℝ) (hδ : δ ≤ 2⁻¹ ^ 25)
+    (hε : εφ + εl ≤ 2⁻¹ ^ 19)
+    (hsl : ∀ i, |sl i - Real.sin (φ' i)| ≤ δ) (hcl : ∀ i, |cl i - Real.cos (φ' i)| ≤ δ)
+    (hsn : ∀ i, |sn i - Real.sin (l' i)| ≤ δ) (hcn : ∀ i, |cn i - Real.cos (l' i)| ≤ δ)
+    (hφ : ∀ i, |φ' i - lat i * Real.pi / 180| ≤ εφ) (hl : ∀ i, |l' i - lon i * Real.pi / 180| ≤ εl)
+    (N a b : Nat) (ha : a < N) (hb : b < N) :
+    |Real.arccos (rCosAngKernel rnd sl cl sn cn N a b) - angularDistance realTrig lat lon N a b|
+      < 2⁻¹ ^ 10 := by
+  have hδ0 : 0 ≤ δ := le_trans (abs_nonneg _) (hsl 0)
+  have hmain := angular_entry_error_rounded h lat lon φ' l' sl cl sn cn δ εφ εl
+    (le_trans hδ (by norm_num)) hsl hcl hsn hcn hφ hl N a b ha hb
+  have hη : ((1 + (2⁻¹ : ℝ) ^ 24) ^ 5 - 1) * (1 + 3 * δ) ^ 2 + (566 / 100 * δ + 11 * δ ^ 2)
+      ≤ ((1 + (2⁻¹ : ℝ) ^ 24) ^ 5 - 1) * (1 + 3 * (2⁻¹ ^ 25)) ^ 2
+        + (566 / 100 * (2⁻¹ ^ 25) + 11 * (2⁻¹ ^ 25) ^ 2) := by
+    have : (0 : ℝ) ≤ (1 + 2⁻¹ ^ 24) ^ 5 - 1 := by norm_num
+    gcongr
+  have ht := arccos_one_sub_le_of_sq _ (2⁻¹ ^ 10 - 2⁻¹ ^ 17) (by norm_num) (by norm_num)
+    (le_trans hη (by norm_num))
+  linarith
+
+/-- the diagonal ("at most that error"): the self-distance of every node is at most
+`arccos (1 - η)` — the conversion error plays no role, the same tables enter twice -/
+theorem angular_self_error_rounded {rnd : ℝ → ℝ} {u : ℝ} (h : StdRound rnd u)
+    (φ' l' sl cl sn cn : Nat → ℝ) (δ : ℝ) (hδ : δ ≤ 1 / 16)
+    (hsl : ∀ i, |sl i - Real.sin (φ' i)| ≤ δ) (hcl : ∀ i, |cl i - Real.cos (φ' i)| ≤ δ)
+    (hsn : ∀ i, |sn i - Real.sin (l' i)| ≤ δ) (hcn : ∀ i, |cn i - Real.cos (l' i)| ≤ δ)
+    (N a : Nat) (ha : a < N) :
+    0 ≤ Real.arccos (rCosAngKernel rnd sl cl sn cn N a a) ∧
+      Real.arccos (rCosAngKernel rnd sl cl sn cn N a a)
+        ≤ Real.arccos (1 - (((1 + u) ^ 5 - 1) * (1 + 3 * δ) ^ 2 + (566 / 100 * δ + 11 * δ ^ 2))) := by
+  rw [rCosAngKernel_apply rnd sl cl sn cn N a a ha ha, Nat.max_self, Nat.min_self]
+  have hc := rCosExpr_total_error h φ' l' sl cl sn cn δ hδ hsl hcl hsn hcn a a
+  have e : inner ℝ (unitVec (φ' a) (l' a)) (unitVec (φ' a) (l' a)) = 1 := by
+    rw [real_inner_self_eq_norm_sq, norm_unitVec]; norm_num
+  rw [e] at hc
+  exact angular_self_error _ _ hc
+
+/-- the hypotheses are satisfiable: exact arithmetic, exact tables, exact radians — the
+theorem then reproduces the closed form with `η = 0` -/
+example : |Real.arccos (rCosAngKernel (fun v => v)
+      (fun i => Real.sin ((if i = 0 then 90 else -90 : ℝ) * Real.pi / 180))
+      (fun i => Real.cos ((if i = 0 then 90 else -90 : ℝ) * Real.pi / 180))
+      (fun i => Real.sin ((if i = 0 then 0 else 180 : ℝ) * Real.pi / 180))
+      (fun i => Real.cos ((if i = 0 then 0 else 180 : ℝ) * Real.pi / 180)) 2 0 1)
+    - angularDistance realTrig (fun i => if i = 0 then 90 else -90)
+        (fun i => if i = 0 then 0 else 180) 2 0 1| < 2⁻¹ ^ 10 :=
+  angular_entry_accuracy_float32_cr
+    ⟨by norm_num, by norm_num, fun v => by simp⟩ _ _
+    (fun i => (if i = 0 then 90 else -90 : ℝ) * Real.pi / 180)
+    (fun i => (if i = 0 then 0 else 180 : ℝ) * Real.pi / 180) _ _ _ _ 0 0 0
+    (by norm_num) (by norm_num) (by simp) (by simp) (by simp) (by simp) (by simp) (by simp)
+    2 0 1 (by omega) (by omega)
+
 /-! ## `GeoGrid.convert_lon_coordinates` -/
 
 /-- longitudes in `[0, 360]` are mapped into `(-180, 180]` … -/
@@ -1010,6 +1238,158 @@ example : maxLinkDist (fun _ j => (j : ℚ)) (fun _ j => if j = 1 then 1 else 0)
 example : outALD (fun _ j => (j : ℚ)) (fun _ j => if j = 0 then 0 else 1) 3 3 false 0
     = some (3 / 2) := by decide +kernel
 
+/-! ## round 3: area-weighted histograms and the neighbour statistics of the AWC
+
+`geoDist` is `GeoNetwork.geographical_distribution(sequence, n_bins)[0]` (and, through the six
+wrappers, every `*area_weighted_connectivity_*distribution`): node `i` adds the cosine of
+**its own** latitude to the bin `symbolic[i]`, and the histogram is divided by the total
+`cos_lat.sum()`. -/
+
+section GeoHist
+set_option linter.unusedSectionVars false
+variable {α : Type} [Field α] [LinearOrder α] [IsStrictOrderedRing α]
+
+/-- **area-weighted histogram**: whenever `geographical_distribution` returns, the sequence
+is not constant (`min < max`), there are `n_bins` bins, bin `b` is the share
+`Σ_{i : symbol i = b} w i / Σ_i w i` of the weight of the nodes whose symbol is `b`, and the
+bins sum to exactly `1` (every node lands in exactly one bin). -/
+theorem geoDist_spec (w : Nat → α) (seq : List α) (nb : Nat) (h : List α)
+    (hok : geoDist w seq nb = .ok h) :
+    ∃ lo hi, minRow seq = some lo ∧ maxRow seq = some hi ∧ lo < hi ∧
+      (∑ i ∈ Finset.range seq.length, w i) ≠ 0 ∧ h.length = nb ∧
+      (∀ b < nb, h[b]? = some ((∑ i ∈ Finset.range seq.length,
+          if (seq.map (geoSymbol nb lo hi)).getD i 0 = b then w i else 0)
+            / ∑ i ∈ Finset.range seq.length, w i)) ∧
+      h.sum = 1 := by
+  unfold geoDist at hok
+  cases hlo : minRow seq with
+  | none => simp [hlo] at hok
+  | some lo =>
+    cases hhi : maxRow seq with
+    | none => simp [hlo, hhi] at hok
+    | some hi =>
+      simp only [hlo, hhi] at hok
+      split_ifs at hok with h0 hidx hnorm
+      simp only [Except.ok.injEq] at hok
+      have hnorm' : (∑ i ∈ Finset.range seq.length, w i) ≠ 0 := by
+        rwa [← foldl_add_eq_sum w seq.length]
+      have hle : lo ≤ hi := by
+        obtain ⟨hm, hmin⟩ := minRow_spec seq lo hlo
+        exact (maxRow_spec seq hi hhi).2 lo hm
+      refine ⟨lo, hi, rfl, rfl, lt_of_le_of_ne hle (fun e => h0 (by rw [e]; ring)), hnorm', ?_, ?_, ?_⟩
+      · rw [← hok]; simp
+      · intro b hb
+        rw [← hok, List.getElem?_map, List.getElem?_range hb]
+        simp only [Option.map_some, sumTo, foldl_add_eq_sum]
+      · rw [← hok, sum_map_range]
+        simp only [sumTo, foldl_add_eq_sum]
+        rw [← Finset.sum_div, Finset.sum_comm, div_eq_one_iff_eq hnorm']
+        apply Finset.sum_congr rfl
+        intro i hi'
+        have hi'' := Finset.mem_range.1 hi'
+        have hlt : (seq.map (geoSymbol nb lo hi)).getD i 0 < nb := by
+          by_contra hcon
+          apply hidx
+          rw [List.any_eq_true]
+          refine ⟨(seq.map (geoSymbol nb lo hi)).getD i 0, ?_, by simpa using not_lt.1 hcon⟩
+          rw [List.getD_eq_getElem?_getD, List.getElem?_eq_getElem (by simpa using hi''),
+            Option.getD_some]
+          exact List.getElem_mem _
+        rw [Finset.sum_ite_eq (Finset.range nb) _ (fun _ => w i), if_pos (Finset.mem_range.2 hlt)]
+
+/-- the `IndexError` branch of the model is dead code: with at least one bin, every symbol
+is a valid bin index (`geoSymbol_lt`: `min ≤ x ≤ max` gives `int(…) ≤ n_bins - 1`) -/
+theorem geoDist_no_IndexError (w : Nat → α) (seq : List α) (nb : Nat) (hnb : 0 < nb) :
+    geoDist w seq nb ≠ .error "IndexError" := by
+  unfold geoDist
+  cases hlo : minRow seq with
+  | none => simp
+  | some lo =>
+    cases hhi : maxRow seq with
+    | none => simp
+    | some hi =>
+      simp only
+      split_ifs with h0 hidx hnorm <;> try simp
+      exfalso
+      rw [List.any_eq_true] at hidx
+      obtain ⟨s, hs, hge⟩ := hidx
+      obtain ⟨x, hx, rfl⟩ := List.mem_map.1 hs
+      have hmin := (minRow_spec seq lo hlo).2 x hx
+      have hmax := (maxRow_spec seq hi hhi).2 x hx
+      have hlt : lo < hi := lt_of_le_of_ne (le_trans hmin hmax) (fun e => h0 (by rw [e]; ring))
+      have := geoSymbol_lt nb lo hi x hnb hlt hmin hmax
+      simp at hge
+      omega
+
+/-- a constant (or one-element) sequence makes `geographical_distribution` raise
+`ZeroDivisionError` (`1. / (range_max - range_min)` on Python floats) -/
+theorem geoDist_constant (w : Nat → α) (x : α) (n nb : Nat) :
+    geoDist w (List.replicate (n + 1) x) nb = .error "ZeroDivisionError" := by
+  have h1 : ∀ k, List.foldl (fun m y => if y < m then y else m) x (List.replicate k x) = x := by
+    intro k; induction k with
+    | zero => rfl
+    | succ k ih => simp [List.replicate_succ, ih]
+  have h2 : ∀ k, List.foldl (fun m y => if m < y then y else m) x (List.replicate k x) = x := by
+    intro k; induction k with
+    | zero => rfl
+    | succ k ih => simp [List.replicate_succ, ih]
+  have hmin : minRow (List.replicate (n + 1) x) = some x := by
+    simp only [List.replicate_succ, minRow, h1]
+  have hmax : maxRow (List.replicate (n + 1) x) = some x := by
+    simp only [List.replicate_succ, maxRow, h2]
+  simp [geoDist, hmin, hmax]
+
+/-- **`max_neighbor_area_weighted_connectivity`**: the value of node `i` is the AWC of one of
+its neighbours and bounds the AWC of all of them; the call fails (`ValueError`) exactly for
+a node without neighbours -/
+theorem maxNbAWC_spec (awc : Nat → α) (A : Nat → Nat → α) (N i : Nat) :
+    (maxNbAWC awc A N i = none ↔ ∀ j < N, A i j ≠ 1) ∧
+      ∀ m, maxNbAWC awc A N i = some m →
+        (∃ j < N, A i j = 1 ∧ m = awc j) ∧ ∀ j < N, A i j = 1 → awc j ≤ m := by
+  unfold maxNbAWC
+  constructor
+  · rw [maxRow_eq_none_iff, List.map_eq_nil_iff, List.filter_eq_nil_iff]
+    simp
+  · intro m hm
+    obtain ⟨hmem, hmax⟩ := maxRow_spec _ m hm
+    obtain ⟨j, hj, rfl⟩ := List.mem_map.1 hmem
+    rw [List.mem_filter] at hj
+    refine ⟨⟨j, List.mem_range.1 hj.1, by simpa using hj.2, rfl⟩, ?_⟩
+    intro k hk hAk
+    exact hmax _ (List.mem_map.2 ⟨k, List.mem_filter.2 ⟨List.mem_range.2 hk, by simpa using hAk⟩, rfl⟩)
+
+/-- **`average_neighbor_area_weighted_connectivity`** is the general link-average routine on
+the AWC of the neighbours: for a 0/1 row and `degree =` its row sum `≠ 0`,
+`value · degree = Σ_{j ∈ N(i)} awc j` -/
+theorem avgNbAWC_mean (awc deg : Nat → α) (A : Nat → Nat → α) (N i : Nat) (hne : deg i ≠ 0) :
+    avgNbAWC awc deg A N i * deg i = ∑ j ∈ Finset.range N, A i j * awc j := by
+  simp only [avgNbAWC, if_neg hne, sumTo, foldl_add_eq_sum]
+  rw [div_mul_cancel₀ _ hne]
+
+theorem avgNbAWC_isolated (awc deg : Nat → α) (A : Nat → Nat → α) (N i : Nat)
+    (hA : ∀ j < N, A i j = 0) (h : deg i = 0) : avgNbAWC awc deg A N i = 0 := by
+  simp only [avgNbAWC, if_pos h, sumTo, foldl_add_eq_sum]
+  apply Finset.sum_eq_zero
+  intro j hj
+  rw [hA j (Finset.mem_range.1 hj), zero_mul]
+
+/-- `np.histogram` with `n_bins` uniform bins: every kept value is counted in exactly one
+bin — the counts add up to the number of values inside the range -/
+theorem histCounts_sum (nb : Nat) (lo hi : α) (vals : List α) (hnb : 0 < nb) (hlh : lo ≠ hi) :
+    (histCounts nb lo hi vals).sum = (vals.filter fun v => decide (lo ≤ v ∧ v ≤ hi)).length := by
+  unfold histCounts
+  simp only [if_neg hlh]
+  rw [sum_map_range]
+  exact sum_count_bins (fun v => binOf nb (linEdge nb lo hi) v) _ nb
+    (fun v _ => binOf_lt nb _ v hnb)
+
+end GeoHist
+
+example : geoDist (fun _ => (1 : ℚ)) [0, 1, 2, 4] 3 = .ok [1 / 2, 1 / 4, 1 / 4] := by decide +kernel
+example : maxNbAWC (fun j => (j : ℚ)) (fun _ j => if j = 1 then 1 else 0) 3 0 = some 1 := by
+  decide +kernel
+example : histCounts 2 (0 : ℚ) 2 [0, 1, 2, 1, 0, 1, 2, 1, 0] = [3, 6] := by decide +kernel
+
 /-! ## tie to the source: the definitions regenerated from the working tree
 
 `translate/gen_C12.py` re-reads `numerics.pyx`, `geo_grid.py`, `grid.py` and
@@ -1126,6 +1506,25 @@ theorem src_weightCases :
     StructC12.weightCases = [("surface", "self.grid.cos_lat()"),
       ("irrigation", "np.square(self.grid.cos_lat())")] ∧ StructC12.weightElse = "None" := by
   decide
+
+/-- round 3 — `geographical_distribution`: the weights are `self.grid.cos_lat()`, node `i`
+adds `cos_lat[i]` (its own) to `hist[symbolic[i]]`, the histogram is divided by
+`cos_lat.sum()`, and the symbol is `int((n_bins - 1) * scaling * (sequence - range_min))`
+with `scaling = 1 / (range_max - range_min)` on Python floats — the model's `geoDist` -/
+theorem src_geoDist :
+    StructC12.geoDistLocals = [("cos_lat", "self.grid.cos_lat()"), ("norm", "cos_lat.sum()"),
+      ("range_min", "float(sequence.min())"), ("range_max", "float(sequence.max())"),
+      ("scaling", "1.0 / (range_max - range_min)"),
+      ("symbolic", "((n_bins - 1) * scaling * (sequence - range_min)).astype(int)")] ∧
+    StructC12.geoDistUpdates = [("hist[symbolic[i]]", "Add cos_lat[i]"), ("hist", "Div norm")] := by
+  decide
+
+/-- round 3 — the distance matrices come out of the grid's cache **by reference**: every
+method of `Grid` / `GeoGrid` / `SpatialNetwork` / `GeoNetwork` that stores into a local
+holding such a matrix obtained it through `.copy()` (seeded C12-3 removes the copy in
+`local_geographical_clustering`) -/
+theorem src_distance_copies :
+    ∀ p ∈ StructC12.distEdits, p.2.2 = true := by decide
 
 end SourceTie
 
